@@ -1379,3 +1379,174 @@ def ob_stream(ctx, tier):
 
 def enum_base_is(v, base):
     return symex.enum_base(v.ty) == base
+
+
+# ---------------------------------------------------------------- C15 / C16 / C17: Async adapter
+ASYNC_NEW = r"^fn io::<impl at [^>]*>::new\(_1: Rc<LoopInner"
+
+
+def ob_async_new(ctx, tier):
+    """Async::new: the fd is made non-blocking first; on a registration error the slot is freed
+    again (kill) and the previous blocking mode restored before the error is returned; on
+    success the dispatcher is marked registered"""
+    c = Chk()
+    f, paths, cfg = run_fn(ctx, ASYNC_NEW)
+    for p in paths:
+        if p.status != "return":
+            continue
+        nb = calls(p, r"^set_nonblocking$")
+        rg = calls(p, r"IoLoopInner>::register$")
+        if not nb or not bool_is(nb[0].args[1], True):
+            c.fail("adapter_does_not_make_fd_nonblocking_first", p)
+            continue
+        if not rg:
+            if not ret_is(p, 1):
+                c.fail("async_new_shape", p)
+            continue
+        c.witness = True
+        failed = entails(ctx, p.pc, dz(rg[0].ret.disc) == 1)[0]
+        kills = calls(p, r"IoLoopInner>::kill$", rg[0].idx)
+        rest = [e for e in nb[1:] if e.idx > rg[0].idx]
+        if failed:
+            if not kills:
+                c.fail("failed_adapt_leaks_its_slot", p)
+            was = nb[0].ret.payloads.get("Ok", {}).get(0)
+            if not rest or rest[0].args[1] is not was:
+                c.fail("failed_adapt_does_not_restore_blocking_mode", p)
+            if not ret_is(p, 1):
+                c.fail("failed_adapt_not_reported", p)
+        else:
+            if kills or rest:
+                c.fail("successful_adapt_undoes_itself", p)
+            if not ret_is(p, 0):
+                c.fail("successful_adapt_not_ok", p)
+            # the dispatcher is marked registered: IoDispatcher.is_registered (field 3)
+            newc = [e for e in p.trace if e.kind == "new" and "IoDispatcher" in e.callee and "RefCell" in e.callee]
+            try:
+                disp = newc[0].ret.pointee.value
+                flag = disp.fields[struct_fields(ctx, "IoDispatcher").index("is_registered")]
+                if not bool_is(flag, True):
+                    c.fail("registration_not_recorded_in_dispatcher", p)
+            except Exception:
+                c.fail("registration_flag_not_found", p)
+    return c.res(paths, cfg)
+
+
+def ob_async_drop(ctx, tier):
+    """Async Drop: kill, then the blocking mode the fd had before is restored.  kill: the slot is
+    vacated; when the dispatcher is registered the fd is removed from the poller
+    (Poll::unregister) unless the poll is busy, and the flag is cleared"""
+    c = Chk()
+    f, paths, cfg = run_fn(ctx, r"^fn io::<impl at [^>]*>::drop\(_1: &mut Async")
+    for p in paths:
+        k = calls(p, r"IoLoopInner>::kill$")
+        nb = calls(p, r"^set_nonblocking$")
+        if len(k) != 1 or len(nb) != 1 or nb[0].idx < k[0].idx:
+            c.fail("adapter_drop_shape", p)
+            continue
+        c.witness = True
+        if "a1.3" not in repr(nb[0].args[1]) and "was" not in repr(nb[0].args[1]):
+            wi = struct_fields(ctx, "Async").index("was_nonblocking")
+            if ("_%d_" % wi) not in str(nb[0].args[1]) and ("a1_%d" % wi) not in str(nb[0].args[1]):
+                c.fail("adapter_drop_does_not_restore_previous_mode", p)
+    f2, p2, cfg2 = run_fn(ctx, r"^fn io::<impl at [^>]*>::kill\(")
+    reg_i = struct_fields(ctx, "IoDispatcher").index("is_registered")
+    for p in p2:
+        if p.status != "return":
+            continue
+        gm = calls(p, r"SourceList::<.*>::get_mut$")
+        un = calls(p, r"sys::Poll::unregister")
+        if len(gm) != 1:
+            c.fail("kill_shape", p)
+            continue
+        live = entails(ctx, p.pc, dz(gm[0].ret.disc) == 0)[0]
+        if live:
+            try:
+                src = gm[0].ret.payloads["Ok"][0].pointee.value.fields[1]
+                if not (isinstance(src, Enum) and src.disc == 0):
+                    c.fail("kill_does_not_vacate_the_slot", p)
+            except Exception:
+                c.fail("kill_slot_not_found", p)
+        # registered & poll free  => unregister
+        flags = [v for v in z3util_vars(z3.And(*p.pc)) if z3.is_bool(v) and ("_%d_" % reg_i) in str(v)]
+        tb = [e for e in p.trace if e.kind == "borrow" and e.callee == "try_borrow_mut"]
+        if flags:
+            isreg = entails(ctx, p.pc, flags[0])[0]
+            free = tb and tb[0].info.get("outcome") == "Ok"
+            if isreg and free and len(un) != 1:
+                c.fail("registered_fd_not_removed_from_poller", p)
+            if not isreg and un:
+                c.fail("unregistered_fd_removed_from_poller", p)
+        elif un:
+            c.fail("kill_unregisters_unconditionally", p)
+    into = run_fn(ctx, r"^fn io::<impl at [^>]*>::into_inner\(_1: Async")
+    for p in into[1]:
+        # into_inner takes the fd; the adapter itself is dropped => Drop runs (drop event on the Async)
+        if p.status == "return" and not [e for e in p.trace if e.kind in ("drop", "call") and "Async" in (e.callee + repr(e.args))]:
+            c.fail("into_inner_forgets_the_adapter", p)
+    return c.res(paths + p2 + into[1], cfg)
+
+
+def ob_async_io(ctx, tier):
+    """Readable/Writable::poll: Ready iff the consumed readiness has the bit (or error), otherwise
+    the waker is registered for that interest and Pending returned.  AsyncRead/AsyncWrite: the
+    inner read/write result is returned unchanged unless it is WouldBlock; on WouldBlock
+    register_waker(READ|WRITE) precedes Pending"""
+    c = Chk()
+    allp = []
+    cfg = None
+    for nm, rx, fld in (("readable", r"::poll\(_1: Pin<&mut io::Readable", 0), ("writable", r"::poll\(_1: Pin<&mut (io::)?Writable", 1)):
+        f, paths, cfg = run_fn(ctx, rx)
+        allp += paths
+        for p in paths:
+            if p.status != "return" or not isinstance(p.ret, Enum):
+                continue
+            rd = calls(p, r"Async::<.*>::readiness$")
+            rw = calls(p, r"Async::<.*>::register_waker$")
+            if len(rd) != 1:
+                c.fail(nm + "_does_not_consume_readiness_once", p)
+                continue
+            c.witness = True
+            r = rd[0].ret
+            bit = r.fields.get(fld) if isinstance(r, Sym) else None
+            err = r.fields.get(2) if isinstance(r, Sym) else None
+            have = [x for x in (bit, err) if x is not None]
+            ready_cond = z3.Or(*have) if have else z3.BoolVal(False)
+            if p.ret.disc == 0:
+                if not entails(ctx, p.pc, ready_cond)[0] or rw:
+                    c.fail(nm + "_ready_without_readiness", p)
+            else:
+                if not entails(ctx, p.pc, z3.Not(ready_cond))[0]:
+                    c.fail(nm + "_pending_although_ready", p)
+                if len(rw) != 1:
+                    c.fail(nm + "_pending_without_registering_waker", p)
+                else:
+                    want = ("READ", "WRITE")[fld]
+                    if want not in repr(rw[0].args[1]):
+                        c.fail(nm + "_registers_wrong_interest", p)
+    for nm, want in (("poll_read", "READ"), ("poll_read_vectored", "READ"), ("poll_write", "WRITE"),
+                     ("poll_write_vectored", "WRITE"), ("poll_flush", "WRITE")):
+        f, paths, cfg = run_fn(ctx, r"^fn io::<impl at [^>]*>::%s\(_1: Pin<&mut Async" % nm)
+        allp += paths
+        for p in paths:
+            if p.status != "return" or not isinstance(p.ret, Enum):
+                continue
+            io = [e for e in p.trace if e.kind == "call" and re.search(r" as (std::io::)?(Read|Write)>::(read|write|read_vectored|write_vectored|flush)$", e.callee)]
+            rw = calls(p, r"Async::<.*>::register_waker$")
+            if len(io) != 1:
+                c.fail(nm + "_io_not_attempted_exactly_once", p)
+                continue
+            c.witness = True
+            if p.ret.disc == 1:      # Pending
+                if len(rw) != 1 or rw[0].idx < io[0].idx or want not in repr(rw[0].args[1]):
+                    c.fail(nm + "_pending_without_waker_for_" + want.lower(), p)
+                kinds = calls(p, r"Error::kind$")
+                if not kinds:
+                    c.fail(nm + "_pending_without_would_block", p)
+            else:
+                pl = p.ret.payloads.get("Ready", {}).get(0)
+                if rw and not (isinstance(pl, Enum) and pl.disc == 1):
+                    c.fail(nm + "_ready_but_waker_registered", p)
+                if not rw and pl is not io[0].ret:
+                    c.fail(nm + "_result_not_passed_through", p)
+    return c.res(allp, cfg)
